@@ -346,14 +346,14 @@ Lemma call_b_iff F c calls k : call_b F c calls k = true <-> call_ok F c calls k
 Proof.
   unfold call_b, call_ok. rewrite !andb_true_iff, !orb_true_iff, !negb_true_iff, !Z.leb_le.
   split.
-  - intros (((A & B) & C) & D). repeat split; auto.
+  - intros (((A & B) & C) & D). split; [exact A|]. split; [exact B|]. split.
     + intros E. destruct C as [C|C]; [congruence|]. destruct (k_dl k) as [x|]; [|discriminate].
       exists x. split; auto. apply bound_b_iff; auto.
-    + intros E. destruct D as [D|D]; [congruence|exact D].
-  - intros (A & B & C & D). repeat split; auto.
+    + intros E. destruct D as [D|D]; [congruence|apply andb_true_iff; exact D].
+  - intros (A & B & C & D). split; [split; [split; [exact A|exact B]|]|].
     + destruct (needs_deadline c (k_be k)); [right|left; reflexivity].
       destruct (C eq_refl) as (x & E & Hb). rewrite E. apply bound_b_iff; auto.
-    + destruct (derived c (k_be k)); [right; auto|left; reflexivity].
+    + destruct (derived c (k_be k)); [right; apply andb_true_iff; auto|left; reflexivity].
 Qed.
 
 Lemma spec_b_iff F c slack o : spec_b F c slack o = true <-> Spec F c slack o.
@@ -477,13 +477,106 @@ Section Workers.
 End Workers.
 
 (* ---------------------------------------------------------------------------------- *)
+(* the nesting as data: any chain of derivations, then the chains the factory builds *)
+
+Lemma build_deadline st : forall base, deadline (build base st) = min_dl (deadline base) st.
+Proof.
+  induction st as [|[t now d|t] r IH]; intros base; simpl; auto; rewrite IH; reflexivity.
+Qed.
+
+Lemma build_length st : forall base, List.length (build base st) = (List.length base + List.length st)%nat.
+Proof.
+  induction st as [|[t now d|t] r IH]; intros base; simpl; try lia; rewrite IH; simpl; lia.
+Qed.
+
+Lemma build_wf st : forall base, wf base -> wf (build base st).
+Proof.
+  induction st as [|[t now d|t] r IH]; intros base H; simpl; auto; apply IH;
+    [apply wf_with_timeout|apply wf_with_cancel]; exact H.
+Qed.
+
+(* done is inherited along any chain *)
+Lemma build_done st : forall base cs now, done cs now base = true -> done cs now (build base st) = true.
+Proof.
+  induction st as [|[t now0 d|t] r IH]; intros base cs now H; simpl; auto; apply IH; apply done_parent; exact H.
+Qed.
+
+Lemma derived_done st : forall base cs now,
+  done cs now base = true -> forallb (done cs now) (derived_ctxs base st) = true.
+Proof.
+  induction st as [|[t now0 d|t] r IH]; intros base cs now H; cbn [derived_ctxs forallb]; auto.
+  - assert (H1 : done cs now (with_timeout base t now0 d) = true) by (apply done_parent; exact H).
+    rewrite H1. simpl. apply IH. exact H1.
+  - assert (H1 : done cs now (with_cancel base t) = true) by (apply done_parent; exact H).
+    rewrite H1. simpl. apply IH. exact H1.
+Qed.
+
+(* calling the cancel function of the OUTERMOST derivation ends every derived context of the
+   chain, whatever is nested inside it *)
+Lemma outermost_cancel_ends_chain base s st cs now :
+  In (stage_tok s) cs -> chain_done cs now base (s :: st) = true.
+Proof.
+  intros H. unfold chain_done. destruct s as [t now0 d|t]; cbn [derived_ctxs forallb stage_tok] in *.
+  - assert (H1 : done cs now (with_timeout base t now0 d) = true) by (apply done_head_cancelled; exact H).
+    rewrite H1. simpl. apply derived_done. exact H1.
+  - assert (H1 : done cs now (with_cancel base t) = true) by (apply done_head_cancelled; exact H).
+    rewrite H1. simpl. apply derived_done. exact H1.
+Qed.
+
+(* the contexts of the model are the chains the factory wires up *)
+Lemma ctx_call_build F c clk i j : ctx_call F c clk i j = build (base_ctx c) (stages F c clk i j).
+Proof.
+  unfold ctx_call, ctx_conc, ctx_part, ctx_merge, ctx_router, stages, base_ctx, routed, opt_stage.
+  destruct (concurrent c i); destruct (multi c); destruct (c_seq c); destruct (c_level c); reflexivity.
+Qed.
+
+Lemma stages_length F c clk i j : List.length (stages F c clk i j) = depth c i.
+Proof.
+  unfold stages, depth, opt_stage.
+  destruct (routed c); destruct (multi c); destruct (c_seq c); destruct (concurrent c i); reflexivity.
+Qed.
+
+Lemma nesting_depth F c clk i j :
+  List.length (ctx_call F c clk i j) = (List.length (base_ctx c) + depth c i)%nat.
+Proof. rewrite ctx_call_build, build_length, stages_length. reflexivity. Qed.
+
+(* end to end: the deadline of a backend call is exactly the minimum of the deadlines of the
+   frames above it - the context handed in, the router's T, the merge's 85 %, the concurrent
+   stage's 75 % -, for every combination the factory can build; no deadline iff there is no frame *)
+Lemma leaf_deadline_is_min F c clk i j :
+  deadline (ctx_call F c clk i j) = lmin (frame_deadlines F c clk i).
+Proof.
+  unfold ctx_call, ctx_conc, ctx_part, ctx_merge, ctx_router, frame_deadlines, base_ctx, routed,
+    parent_ctx, with_timeout, with_cancel, background, omin.
+  destruct (concurrent c i); destruct (multi c); destruct (c_seq c); destruct (c_level c);
+    destruct (c_parent c); simpl; try reflexivity; f_equal; lia.
+Qed.
+
+(* every derived context of a call - leaf and intermediate frames alike - is done once the
+   pipeline has returned *)
+Lemma chain_done_after_return F c clk p called now i j :
+  derived c i = true -> In i called ->
+  chain_done (cancelled_at_return c p called) now (base_ctx c) (stages F c clk i j) = true.
+Proof.
+  intros Hd Hi. unfold derived in Hd. unfold stages, cancelled_at_return, router_cancels, merge_cancels, opt_stage.
+  destruct (routed c) eqn:R; simpl.
+  - apply outermost_cancel_ends_chain. simpl. auto.
+  - destruct (multi c) eqn:M; simpl.
+    + apply outermost_cancel_ends_chain. simpl. auto.
+    + simpl in Hd. rewrite Hd. simpl. apply outermost_cancel_ends_chain. simpl.
+      apply in_flat_map. exists i. split; auto. unfold conc_cancels. rewrite Hd. simpl. auto.
+Qed.
+
+(* ---------------------------------------------------------------------------------- *)
 (* the model meets the oracle: the observation the model predicts - every attempt of every
    called backend invoked at [inv] under the model's context, sampled against the cancel
    functions called on the return paths - passes spec_b *)
 
 Definition model_call F c clk p called now inv (i j : nat) : call :=
   {| k_be := i; k_inv := inv; k_dl := deadline (ctx_call F c clk i j);
-     k_done_after := done (cancelled_at_return c p called) now (ctx_call F c clk i j) |}.
+     k_done_after := done (cancelled_at_return c p called) now (ctx_call F c clk i j);
+     k_depth := Some (depth c i);
+     k_chain_done := chain_done (cancelled_at_return c p called) now (base_ctx c) (stages F c clk i j) |}.
 
 Definition model_calls F c clk p called now inv : list call :=
   flat_map (fun i => map (model_call F c clk p called now inv i) (upto 0 (cc_of c i))) called.
@@ -535,7 +628,7 @@ Proof.
     split; [lia|]. split; [lia|]. split.
     + intros Hn. destruct (D1 Hn) as (x & E). exists x. split; auto.
       apply bound_b_iff; try lia. apply D2. exact E.
-    + intros Hd. apply cancelled_after_return; auto.
+    + intros Hd. split; [apply cancelled_after_return; auto|apply chain_done_after_return; auto].
   - intros _ d Hd. apply Hret. exact Hd.
   - intros _ i Hi. apply Hkeys. exact Hi.
 Qed.
